@@ -53,9 +53,10 @@ type World struct {
 	Opt   *Item
 	Flaky bool // the flaky resolver fails at this version
 	Safe  bool // ... with an error marked safe to show to the client
+	WrapsCanceled bool // ... with a plain error that wraps context.Canceled
 }
 
-const MaxVer = 7
+const MaxVer = 9
 
 var Table = []World{
 	{Items: []*Item{{1, 0}, {2, 0}}, N: 0, Thing: &Thing{P: &P{1, "p"}}, Opt: &Item{9, 0}},
@@ -65,6 +66,11 @@ var Table = []World{
 	{Items: nil, N: 2, Thing: &Thing{R: &R{2, 5}}, Opt: &Item{8, 1}},
 	{Items: []*Item{{2, 2}, {3, 0}, {1, 1}, {4, 0}}, N: 2, Thing: &Thing{P: &P{2, "p"}}, Opt: nil, Flaky: true},
 	{Items: []*Item{{2, 2}, {3, 0}, {1, 1}, {4, 0}}, N: 2, Thing: &Thing{P: &P{2, "p"}}, Opt: nil},
+	// one element becomes null in place: same length, every other element where it was
+	{Items: []*Item{{2, 2}, nil, {1, 1}, {4, 0}}, N: 2, Thing: &Thing{P: &P{2, "p"}}, Opt: nil},
+	// the flaky resolver fails with an error that merely WRAPS context.Canceled (its own upstream call was
+	// cancelled); the request's context is alive, so this is an ordinary failure, not a client gone away
+	{Items: []*Item{{2, 2}, nil, {1, 1}, {4, 0}}, N: 2, Thing: &Thing{P: &P{2, "p"}}, Opt: nil, Flaky: true, WrapsCanceled: true},
 	{Items: []*Item{{4, 1}, {2, 2}}, N: 3, Thing: &Thing{P: &P{2, "z"}}, Opt: &Item{7, 0}},
 }
 
@@ -277,6 +283,9 @@ func (h *harness) schema() *graphql.Schema {
 	})
 	q.FieldFunc("flaky", func(ctx context.Context) (int64, error) {
 		w, _ := h.world(ctx)
+		if w.Flaky && w.WrapsCanceled {
+			return 0, fmt.Errorf("secret: upstream call failed: %w", context.Canceled)
+		}
 		if w.Flaky && w.Safe {
 			return 0, graphql.NewSafeError("the flaky resolver failed (safe to show)")
 		}
@@ -296,9 +305,9 @@ func (h *harness) schema() *graphql.Schema {
 // ---- fake socket ----
 
 type inMsg struct {
-	ID      string          `json:"id"`
+	ID      string          `json:"id,omitempty"` // the empty id is left out of the frame
 	Type    string          `json:"type"`
-	Message json.RawMessage `json:"message"`
+	Message json.RawMessage `json:"message,omitempty"` // only subscribe and mutate carry a message
 	q       string
 }
 
@@ -327,6 +336,7 @@ func (s *sock) ReadJSON(v interface{}) error {
 	s.h.mu.Lock()
 	s.h.add(Raw{Ev: "recv", Id: m.ID, Typ: m.Type, Q: m.q})
 	s.h.mu.Unlock()
+	// the frame is decoded INTO the value the server hands in, as a real websocket's ReadJSON does
 	b, _ := json.Marshal(m)
 	return json.Unmarshal(b, v)
 }
@@ -410,9 +420,20 @@ type scriptMsg struct {
 }
 
 // runScenario runs one connection; returns the spec-level events.
+// startVersion is the data version a scenario starts at (never a failing one, never the last).
+func startVersion(seed int64) int {
+	v := int(uint64(seed*2654435761) % uint64(MaxVer-1))
+	for Table[v].Flaky {
+		v = (v + 1) % (MaxVer - 1)
+	}
+	return v
+}
+
 func runScenario(seed int64, scn int, maxSubs int) ([]Event, bool) {
 	r := rand.New(rand.NewSource(seed))
 	h := &harness{tracker: map[*rx.Resource]bool{}, rng: rand.New(rand.NewSource(seed + 1)), perturb: []float64{0, 0.1, 0.4}[r.Intn(3)]}
+	// scenarios start at different data versions, so that the later rows of the table are reached as often as the first
+	h.version = startVersion(seed)
 	cur = h
 	base := runtime.NumGoroutine()
 	schema := h.schema()
@@ -429,7 +450,7 @@ func runScenario(seed int64, scn int, maxSubs int) ([]Event, bool) {
 	served := make(chan struct{})
 	go func() { c.ServeJSONSocket(); close(served) }()
 
-	ids := []string{"1", "2", "3"}
+	ids := []string{"1", "2", "3", ""}
 	qs := []string{"qa", "qa", "qb", "qf", "qf", "qbad"}
 	n := 3 + r.Intn(8)
 	var script []scriptMsg
@@ -486,7 +507,10 @@ func runScenario(seed int64, scn int, maxSubs int) ([]Event, bool) {
 		} else {
 			time.Sleep(time.Duration(r.Intn(700)) * time.Microsecond)
 		}
-		msg, _ := json.Marshal(map[string]interface{}{"query": Queries[m.q], "variables": map[string]interface{}{}})
+		var msg json.RawMessage
+		if m.typ == "subscribe" || m.typ == "mutate" {
+			msg, _ = json.Marshal(map[string]interface{}{"query": Queries[m.q], "variables": map[string]interface{}{}})
+		}
 		s.in <- &inMsg{ID: m.id, Type: m.typ, Message: msg, q: m.q}
 	}
 	wg.Wait()
@@ -550,6 +574,13 @@ func fold(raw []Raw, scn int) []Event {
 	var closedIds []string
 	flushReject := func() {}
 	_ = flushReject
+	// the server has to act on the id the frame it just read carries: an event of the reader goroutine about a
+	// different id is logged as "id.mismatch", which no step of Conn.tla explains
+	sameID := func(r *Raw) {
+		if pending != nil && r.Id != pending.Id {
+			emit(Event{Ev: "id.mismatch", Id: r.Id, Typ: pending.Typ, Q: pending.Id})
+		}
+	}
 	for i := range raw {
 		r := &raw[i]
 		switch r.Ev {
@@ -562,6 +593,7 @@ func fold(raw []Raw, scn int) []Event {
 		case "recv.eof":
 			closing = true
 		case "subscribe.rejected", "mutate.rejected":
+			sameID(r)
 			if pending != nil {
 				emit(Event{Ev: "rejected", Id: r.Id, Typ: pending.Typ, Q: pending.Q, Kind: r.Kind})
 				rejected = true
@@ -572,9 +604,11 @@ func fold(raw []Raw, scn int) []Event {
 				rejected = true
 			}
 		case "logsub":
+			sameID(r)
 			emit(Event{Ev: "subscribe.accepted", Id: r.Id, Q: pending.Q})
 			pending = nil
 		case "mutate.accepted":
+			sameID(r)
 			emit(Event{Ev: "mutate.accepted", Id: r.Id, Q: pending.Q})
 			pending = nil
 		case "logunsub":
@@ -584,6 +618,7 @@ func fold(raw []Raw, scn int) []Event {
 				// closeSubscription found the id, took c.mu, waited in Stop for a running computation,
 				// removed the entry and now logs: this is where the subscription is over
 				if pc.rd {
+					sameID(r)
 					emit(Event{Ev: "unsubscribe", Id: r.Id, Found: true})
 					pending = nil
 				} else {
@@ -656,6 +691,7 @@ func fold(raw []Raw, scn int) []Event {
 			if r.B {
 				pendingClose[r.gid] = r
 			} else if r.rd {
+				sameID(r)
 				emit(Event{Ev: "unsubscribe", Id: r.Id, Found: false})
 				pending = nil
 			} else {
@@ -742,7 +778,7 @@ func Main(args []string) error {
 		if d := time.Since(t0); d > 200*time.Millisecond && os.Getenv("VH_DEBUG") != "" {
 			fmt.Fprintf(os.Stderr, "slow scenario %d: %v (%d events)\n", i+1, d, len(evs))
 		}
-		w.Write(Event{Ev: "reset", Scn: i + 1, Ids: []string{}, Msg: tj.T{K: "n"}})
+		w.Write(Event{Ev: "reset", Scn: i + 1, Ids: []string{}, Msg: tj.T{K: "n"}, V: startVersion(*seed*104729 + int64(i))})
 		for _, e := range evs {
 			w.Write(e)
 			k := e.Ev
